@@ -245,6 +245,11 @@ class ABase:
     def Implies(self, a, b):
         return self.Or(self.Not(a), b)
 
+    def Iff(self, a, b):
+        if is_sym(a) or is_sym(b):
+            return SymBool(S._zb(a) == S._zb(b))
+        return bool(a) == bool(b)
+
     # exact comparators (no tolerance in concrete mode): for compare-only code
     def xle(self, a, b):
         return S._b_cmp('le')(a, b) if (is_sym(a) or is_sym(b)) else bool(a <= b)
